@@ -220,6 +220,26 @@ def run(prog, R):
                     cnt = sum(1 for it in R.items if it['rule'] == 'UNIT-1' and it['key'].startswith('UNIT-1:%s:%s' % (b.key, '.'.join(names))))
                     R.add('UNIT-1', b, '%s#%d' % ('.'.join(names), cnt + 1), ok, site(b, s.line),
                           det + ('' if ok else '  — a %s must be a file coordinate +/- bytes (this is what makes positions independent of the buffer size)' % ('file offset' if want == FILEOFF else 'line number')))
+    # whole-struct updates: self.position = Position::new(line, byte)
+    for fmt in ('fasta', 'fastq'):
+        for b in reader_bodies(prog, fmt):
+            if b.key.endswith('::with_capacity') or b.key.endswith('::new') or b.key.endswith('::set_policy'):
+                continue
+            for x, t in b.calls():
+                cb = prog.local_callee_body(t.callee)
+                if cb is None or not cb.key.endswith('::Position::new') or len(t.args) != 2:
+                    continue
+                # does the result end up in self.position ?
+                to_pos = t.dest.local == 1 or any(k == 'store' and [p['name'] for p in n.place.proj if p['k'] == 'field'] == ['position']
+                                                  for (k, n, i, via) in forward_sinks(b, t.dest.local) if k == 'store')
+                if not to_pos:
+                    continue
+                ub = U.unit_op(b, t.args[1])
+                ul = U.unit_op(b, t.args[0])
+                ok = ub in (FILEOFF,) or (ub is None)
+                okl = ul in (LINE, None)
+                R.add('UNIT-1', b, 'position=Position::new', ok and okl, site(b, t.line),
+                      'self.position = Position::new(line <%s>, byte <%s>)%s' % (ul, ub, '' if ok and okl else '  — the byte of a position must be a file coordinate, not a buffer-relative number'))
     R.floor('UNIT-1', 6)
     # error fields that are lines
     # ---------------- UNIT-3
